@@ -3,7 +3,7 @@
     unused slot 0), with and without MP, through both conversions. *)
 From Coq Require Import Ascii String List Bool Arith ZArith Lia.
 From PTBase Require Import Exn PyStr.
-From P Require Import Lang Convert SectionLemmas MopLemmas ConvertLemmas ConvertLemmas2 WaiweraJson JsonLemmas.
+From P Require Import Lang Convert SectionLemmas SectionOrder MopLemmas ConvertLemmas ConvertLemmas2 WaiweraJson JsonLemmas JsonLemmas2.
 From Gen Require Import GenConvert.
 Import ListNotations.
 
@@ -17,6 +17,7 @@ Definition ex_blocks : list blockrec :=
 Definition ex_rocks : list rock := [ {| r_name := s2l "dfalt"; r_scaled := 0; r_data := 1%Z |}; {| r_name := s2l "rock1"; r_scaled := 0; r_data := 2%Z |} ].
 Definition ex_heap : list genrec :=
   [ mkgen "  a 1" "gen 1" "MASS"; mkgen "  b 1" "gen 2" "FEED"; mkgen "  b 1" "gen 3" "CO2 "; mkgen "  a 1" "gen 4" "TMAK" ].
+Definition ex_conns : list (str * str) := [(s2l "  a 1", s2l "atm 0"); (s2l "  a 1", s2l "  b 1"); (s2l "  c 1", s2l "  b 1")].
 Definition ex_options : list Z := [0; 1; 2; 3; 4; 5; 6; 7; 8; 9; 2; 0; 2; 0; 3; 0; 4; 1; 0; 0; 1; 9; 1; 1; 2]%Z.
 
 (** an AUTOUGH2 model: simulator, LINEQ, MULTI with an EOS name, SHORT output, a generator of a type
@@ -32,7 +33,7 @@ Definition ex_au : data :=
      short_output := {| so_freq := Some (MInt 2); so_block := Some [IBlock (s2l "  a 1")]; so_conn := None;
                         so_gen := Some [IGen 1; IGen 2; IGen 0; IGen 2] |};
      hist_block := []; hist_conn := []; hist_gen := [];
-     rocks := ex_rocks; grid_blocks := ex_blocks; grid_conns := [(s2l "  a 1", s2l "  b 1")] |}.
+     rocks := ex_rocks; grid_blocks := ex_blocks; grid_conns := ex_conns |}.
 (** a TOUGH2 model: SOLVR, history requests given as objects, bare names and names outside the grid *)
 Definition ex_t2 : data :=
   {| simulator := []; filename := s2l "MODEL";
@@ -46,7 +47,7 @@ Definition ex_t2 : data :=
      hist_block := [IBlock (s2l "  a 1"); IName (s2l "  b 1"); IName (s2l "zz  9")];
      hist_conn := [ITuple (s2l "  a 1") (s2l "  b 1"); ITuple (s2l "  b 1") (s2l "  a 1")];
      hist_gen := [IName (s2l "  b 1")];
-     rocks := ex_rocks; grid_blocks := ex_blocks; grid_conns := [(s2l "  a 1", s2l "  b 1")] |}.
+     rocks := ex_rocks; grid_blocks := ex_blocks; grid_conns := ex_conns |}.
 
 Definition res_ok {A} (r : res A) : bool := match r with Ok _ => true | Raise _ => false end.
 Definition on_ok {A} (r : res A) (p : A -> bool) : bool := match r with Ok a => p a | Raise _ => false end.
@@ -127,7 +128,8 @@ Qed.
 Definition ex_xin : xin :=
   {| x_d := set_multi [] (set_short_output short_empty ex_au);
      x_geo := map s2l ["atm 0"; "  a 1"; "  b 1"; "  c 1"]%string; x_natm := 1%Z; x_atmos := (1000, 1)%Z;
-     x_eos := EANone; x_ninc := 2; x_diff_ok := true |}.
+     x_eos := EANone; x_ninc := 2; x_diff_ok := true;
+     x_default := 0%Z; x_indom := [(s2l "rock1", 5%Z)]; x_incon := [(s2l "  a 1", 7%Z)] |}.
 Lemma ex_export_ok :
   on_ok (eos_json ex_xin) (fun r => str_eqb (fst r) (s2l "we") && negb (snd r)) = true /\
   on_ok (rocks_cells ex_xin) (fun cl => match cl with [[c0]; [c1]] => Z.eqb c0 0 && Z.eqb c1 1 | _ => false end) = true /\
@@ -139,6 +141,53 @@ Qed.
 (** sources of the converted model (FEED is unsupported by the export; after conversion it is gone) *)
 Lemma ex_sources_ok :
   on_ok (convert_to_TOUGH2 false ex_au) (fun d' =>
-    on_ok (sources {| x_d := d'; x_geo := x_geo ex_xin; x_natm := 1%Z; x_atmos := (1000, 1)%Z; x_eos := EANone; x_ninc := 2; x_diff_ok := true |})
+    on_ok (sources {| x_d := d'; x_geo := x_geo ex_xin; x_natm := 1%Z; x_atmos := (1000, 1)%Z; x_eos := EANone; x_ninc := 2; x_diff_ok := true;
+                    x_default := 0%Z; x_indom := []; x_incon := [] |})
           (fun l => match map snd l with [Some 0%Z; Some 1%Z; Some 1%Z] => true | _ => false end)) = true.
 Proof. vm_compute. reflexivity. Qed.
+
+(** * section order: a TOUGH2 model read from a file whose FOFT / COFT / GOFT sections precede ELEME *)
+Definition ex_hist_first : data :=
+  set_sections (map s2l ["ROCKS"; "PARAM"; "SOLVR"; "MULTI"; "FOFT"; "COFT"; "GOFT"; "ELEME"; "CONNE"; "GENER"]%string) ex_t2.
+Lemma ex_hist_first_sorted : sorted_upto (rk kw_short) (sections ex_hist_first) /\ ~ sorted_upto (rk kw_goft) (sections ex_hist_first).
+Proof.
+  split; [apply sortedb_sound; vm_compute; reflexivity|]. intro PS.
+  assert (B : before kw_foft kw_eleme (sections ex_hist_first)) by (vm_compute; intuition).
+  destruct (PS _ _ B) as [i [j [Ri [Rj L]]]]; [vm_compute; reflexivity|vm_compute; reflexivity|].
+  vm_compute in Ri, Rj. inversion Ri. inversion Rj. subst. lia.
+Qed.
+Definition str_list_eqb (a b : list str) : bool := Nat.eqb (length a) (length b) && forallb (fun p => str_eqb (fst p) (snd p)) (combine a b).
+Lemma ex_hist_first_outcome :
+  on_ok (convert_to_AUTOUGH2 false (s2l default_simulator) (s2l default_eos) ex_hist_first) (fun d' =>
+    str_list_eqb (written_sections d')
+      (map s2l ["SIMUL"; "ROCKS"; "PARAM"; "LINEQ"; "MULTI"; "ELEME"; "CONNE"; "GENER"; "SHORT"]%string)) = true.
+Proof. vm_compute. reflexivity. Qed.
+
+(** * the MULKOM compatibility rescaling: a MULKOM model with MOP(23) = 1 (MOP(10) = 0) *)
+Definition ex_mulkom : data := set_options (opt_set 23 1%Z (opt_set 10 0%Z ex_options)) (set_simulator (s2l "MULKOM    EW") ex_au).
+(** while the source clears the simulator string first, convert_to_TOUGH2 leaves the conductivities alone although the
+    parameter conversion it calls would rescale them once *)
+Lemma mulkom_rescaling_lost_lemma : t2_clears_simulator_first = true ->
+  on_ok (convert_to_TOUGH2 false ex_mulkom) (fun d' => forallb (fun r => Nat.eqb (r_scaled r) 0) (rocks d')) = true /\
+  on_ok (params_to_tough2 false ex_mulkom) (fun d' => forallb (fun r => Nat.eqb (r_scaled r) 1) (rocks d')) = true.
+Proof. intro F. vm_compute in F. first [discriminate F|vm_compute; split; reflexivity]. Qed.
+Lemma mulkom_rescaling_kept_lemma : t2_clears_simulator_first = false ->
+  on_ok (convert_to_TOUGH2 false ex_mulkom) (fun d' => forallb (fun r => Nat.eqb (r_scaled r) 1) (rocks d')) = true.
+Proof. intro F. vm_compute in F. first [discriminate F|vm_compute; reflexivity]. Qed.
+
+(** * block orders, initial conditions, boundary faces *)
+Definition ex_geom (o : border) : geom :=
+  {| gm_atm := [s2l "atm 0"]; gm_under := [(s2l "  a 1", 8); (s2l "  b 1", 6); (s2l "  c 1", 8)]; gm_order := o |}.
+Lemma ex_block_orders :
+  on_ok (block_name_list (ex_geom BODmplex)) (fun l => str_list_eqb l (map s2l ["atm 0"; "  a 1"; "  c 1"; "  b 1"]%string)) = true /\
+  on_ok (block_name_list (ex_geom BOLayerColumn)) (fun l => str_list_eqb l (map s2l ["atm 0"; "  a 1"; "  b 1"; "  c 1"]%string)) = true /\
+  on_ok (block_name_list (ex_geom BONone)) (fun l => str_list_eqb l (x_geo ex_xin)) = true.
+Proof. vm_compute. repeat split. Qed.
+Definition z_list_eqb (a b : list Z) : bool := Nat.eqb (length a) (length b) && forallb (fun p => Z.eqb (fst p) (snd p)) (combine a b).
+Lemma ex_initial_boundary :
+  on_ok (initial_cells ex_xin) (fun l => z_list_eqb l [7; 5; 5]%Z) = true /\
+  on_ok (boundary_faces ex_xin) (fun l => match l with
+     | [(b1, (v1, c1)); (b2, (v2, c2))] => str_eqb b1 (s2l "atm 0") && Z.eqb v1 0 && z_list_eqb c1 [0%Z] &&
+                                           str_eqb b2 (s2l "  c 1") && Z.eqb v2 5 && z_list_eqb c2 [1%Z]
+     | _ => false end) = true.
+Proof. vm_compute. split; reflexivity. Qed.
